@@ -16,7 +16,15 @@ THEOREMS = ["Mistune.escape_roundtrip", "Mistune.escape_no_specials", "Mistune.e
             "Mistune.codespanEndRx_matchAt", "Mistune.codespan_closed_verbatim", "Mistune.codespan_unclosed_iff", "Mistune.parseCodespan_eq",
             # (ii) indented code: the regenerated `_expand_tab_re` / `_INDENT_CODE_TRIM` are the expected terms (kernel-decided), the text computation of parse_indent_code equals the
             # line-level specification for every string, and lines written with any of the five four-column indents come back verbatim
-            "Mistune.expandTabRx_lookup", "Mistune.indentTrimRx_lookup", "Mistune.indentBody_eq", "Mistune.indentBody_eq_ofRuleCfg", "Mistune.indent_verbatim_iff", "Mistune.indent_verbatim", "Mistune.parseIndentCode_eq"]
+            "Mistune.expandTabRx_lookup", "Mistune.indentTrimRx_lookup", "Mistune.indentBody_eq", "Mistune.indentBody_eq_ofRuleCfg", "Mistune.indent_verbatim_iff", "Mistune.indent_verbatim", "Mistune.parseIndentCode_eq",
+            # container de-prefixing (block quotes): the three regenerated quote regexes are the expected terms (kernel-decided); `cleanQuote` equals a per-line specification for EVERY
+            # string; marked lines come back verbatim (the tab-expansion exception is an explicit hypothesis, shown necessary); `_STRICT_BLOCK_QUOTE.match` evaluated exactly (sound and
+            # complete) on the engine; extract_block_quote / parse_block_quote on canonical quotes; fenced code written inside a quote has its body verbatim
+            "Mistune.quoteLeadingRx_lookup", "Mistune.quoteTrimRx_lookup", "Mistune.strictQuoteRx_lookup", "Mistune.blockQuoteRule_lookup", "Mistune.quote1_lookup",
+            "Mistune.cleanQuote_eq", "Mistune.cleanQuote_eq_ofRuleCfg", "Mistune.cleanQuote_lines", "Mistune.cleanQuote_verbatim", "Mistune.cleanQuote_verbatim_tight", "Mistune.cleanQuote_verbatim_marked",
+            "Mistune.strictQuote_matchAt", "Mistune.strictQuote_matchAt_isSome_iff", "Mistune.strictQuote_matchAt_open",
+            "Mistune.extractBlockQuote_marker", "Mistune.extractBlockQuote_verbatim_eos", "Mistune.extractBlockQuote_verbatim_break", "Mistune.parseBlockQuote_of", "Mistune.blockQuote_match_ofRuleCfg",
+            "Mistune.quoted_fenced_verbatim"]
 
 LINE_BITS = ["alpha", "beta gamma", "&amp; &lt; &#35;", "\\* \\` \\\\", "<b>html</b>", "*em* **st** `c`", "[l](u) ![i](s)", "    deep", "  two", "x  ", "# not heading",
              "> not quote", "- not list", "1. no", "***", "---", "===", "| a | b |", "é ß 日本", "\\", "$m$ ~~s~~", "<!-- c -->", "&", "``", "`", "~~", "~", "a\tb", "http://u.v",
